@@ -164,6 +164,10 @@ NextN == \E tag \in Tags :
            \/ \E len \in 0..17 :
                 /\ c' = <<"note", len, tag>>
                 /\ LET a == NoteEl("a1", len, tag) IN Emit("N", ActSeqIn("apply", "m", <<a, LeafAct("a2", "group", tag)>>, tag), <<a>>)
+           \/ \E len \in {6, 14, 22}, z \in {1, 7, 8, 14} :
+                /\ z <= len
+                /\ c' = <<"notez", len, z, tag>>
+                /\ LET a == NoteZEl("a1", len, z, tag) IN Emit("N", ActSeqIn("apply", "m", <<a, LeafAct("a2", "output", tag)>>, tag), <<a>>)
            \/ \E k \in 0..9 :
                 /\ c' = <<"ids", k, tag>>
                 /\ LET a == CntIDs("a1", k, tag) IN Emit("N", ActSeqIn("bucket", "m", <<a, LeafAct("a2", "group", tag)>>, tag), <<a>>)
